@@ -269,7 +269,7 @@ theorem bytesIO_position_irrelevant (bin : FileType → Str → Except Err Book)
 
 /-- what a channel contributes besides the bytes -/
 def stemOf : Channel → Option Str
-  | .path name => some (pathStem name)
+  | .path p => some (pathStem (pathName p))
   | _ => none
 
 /-- **channel_stem.** A path supplies the stem of its file name (`PurePath.stem`) as the default form
@@ -303,18 +303,39 @@ theorem channel_independent_implicit (bin : FileType → Str → Except Err Book
     (fileType_of_not_path c₁ content h₁).2, (fileType_of_not_path c₂ content h₂).2]
 
 theorem path_suffix_is_file_type (bin : FileType → Str → Except Err Book) (name : Str) (content : Str)
-    (t : FileType) (h : FileType.ofSuffix (pathSuffix name) = some t) :
+    (t : FileType) (h : FileType.ofSuffix (pathSuffix (pathName name)) = some t) :
     getXlsform bin (.path name) content none = getXlsform bin (.path name) content (some t) := by
   simp [getXlsform, getDefinitionData, h]
 
 /-- **the stem for arbitrary suffixes.** For a file name `base.ext` (non-empty `base`, which may contain
 dots itself; non-empty dot-free `ext` — `XLSX`, `Md`, `txt`, `markdown`, `v2`, anything) delivered as a
 path, with or without `file_type`, a successful parse carries `fallback_form_name = base`. -/
-theorem channel_stem_any_suffix (bin : FileType → Str → Except Err Book) (base ext content : Str)
+theorem channel_stem_any_suffix (bin : FileType → Str → Except Err Book) (dir base ext content : Str)
     (t : Option FileType) (b : Book) (st : Option Str) (hb : base ≠ []) (he : ext ≠ []) (hd : '.' ∉ ext)
-    (h : getXlsform bin (.path (base ++ '.' :: ext)) content t = .ok (b, st)) : st = some base := by
+    (hs : '/' ∉ base ++ '.' :: ext)
+    (h : getXlsform bin (.path (dir ++ '/' :: (base ++ '.' :: ext))) content t = .ok (b, st)) : st = some base := by
   rw [channel_stem bin _ content t b st h]
-  simp only [stemOf, (pathStem_ext base ext hb he hd).1]
+  simp only [stemOf, pathName_join dir _ hs, (pathStem_ext base ext hb he hd).1]
+
+/-- **any directory.** The file may be stored anywhere: for a path `dir/name` the default form id is the
+stem of `name`, whatever `dir` is (its length — well beyond 260 characters —, dots, spaces, non-ASCII
+letters in its components do not matter). -/
+theorem channel_stem_any_directory (bin : FileType → Str → Except Err Book) (dir name content : Str)
+    (t : Option FileType) (b : Book) (st : Option Str) (hs : '/' ∉ name)
+    (h : getXlsform bin (.path (dir ++ '/' :: name)) content t = .ok (b, st)) : st = some (pathStem name) := by
+  rw [channel_stem bin _ content t b st h]
+  simp only [stemOf, pathName_join dir name hs]
+
+/-- the directory does not change what is parsed either -/
+theorem directory_irrelevant (bin : FileType → Str → Except Err Book) (d₁ d₂ name content : Str)
+    (t : Option FileType) (hs : '/' ∉ name) :
+    getXlsform bin (.path (d₁ ++ '/' :: name)) content t = getXlsform bin (.path (d₂ ++ '/' :: name)) content t := by
+  simp only [getXlsform, getDefinitionData, pathName_join _ name hs]
+
+example : pathName "/tmp/v1.2/forms.md/My Documents/été.x/FORM.XLSX".toList = "FORM.XLSX".toList := by decide
+example : (List.replicate 300 'd' ++ '/' :: "a.md".toList).length > 260 ∧
+    pathName (List.replicate 300 'd' ++ '/' :: "a.md".toList) = "a.md".toList :=
+  ⟨by rw [List.length_append, List.length_replicate]; omega, pathName_join _ _ (by decide)⟩
 
 /-- the suffix only selects the parser; the stem never depends on whether it is recognised -/
 theorem stem_independent_of_file_type (bin : FileType → Str → Except Err Book) (name content : Str)
